@@ -37,22 +37,22 @@ CLAIMED = {
    design="6/C05"),
  "C09": dict(
    technique="runtime monitoring: invariant assertion at statement boundaries on hooked machine state (residue) + N-scaling monitor on hooked max stack pointer / live contexts at loop back-edges",
-   text="After every statement of typed and directed sessions (both compile modes) the hooked (sp, frame, closure, live-context) counts must equal their values before it (all zero after a failure). Loop programs of six loop kinds x nine body tails are run with 3/30/300 iterations; the max stack pointer per memory kind and max live contexts at back-edges must be identical. Loop bodies include guard trees (if / if-else nests of never-taken returns), zipped loops with an iterator expression that makes no call (zero iterations), and generator functions called directly; corpus sessions cover yields without a consumer (also computed operands at top level) and call-free iterator expressions.",
+   text="After every statement of typed and directed sessions (both compile modes) the hooked (sp, frame, closure, live-context) counts must equal their values before it (all zero after a failure). Loop programs of six loop kinds x nine body tails are run with 3/30/300 iterations; the max stack pointer per memory kind and max live contexts at back-edges must be identical. Loop bodies include guard trees (if / if-else nests of never-taken returns), zipped loops with an iterator expression that makes no call (zero iterations), and generator functions called directly; corpus sessions cover yields without a consumer (also computed operands at top level) and call-free iterator expressions; a flags family feeds typed sessions to the input loop with the -ast / -bytecode display options on and reads the same counts after every input.",
    note="Relies on the verif accessors for sp/fp/closure/context counts and the step hook's per-memory maxima.",
    design="6/C09"),
  "C10": dict(
    technique="runtime monitoring: shadow-copy invariant monitor (every value ever produced is deep-copied and re-compared after every operation) over value-package operation histories + globals-frame differential on structure-sharing sessions",
-   text="Histories of concatenations, slices, element reads and NewArray over existing values run on the real value package with up to 64 live values re-read after every operation against their deep copies and a model; array/string sessions that share structure (slices of slices, concat onto slices with spare capacity, partially constant literals, literal-returning functions, recursion on slices, generator prefixes, closures holding slices) have their whole global frame compared with the reference after every statement; closure-plumbing sessions (arrays/strings captured by sibling closures and by closures a generator yields, routed through other functions and called again after other calls, deep recursion and recycled iterator contexts) are compared the same way; the value-package histories hold nil, float and int elements side by side, strings long enough to reach 32..200 bytes extended more than once, and include == / != between live values; the sessions also extend one long concatenation result twice and append one-element literals with a computed element to slices and call results.",
+   text="Histories of concatenations, slices, element reads and NewArray over existing values run on the real value package with up to 64 live values re-read after every operation against their deep copies and a model; array/string sessions that share structure (slices of slices, concat onto slices with spare capacity, partially constant literals, literal-returning functions, recursion on slices, generator prefixes, closures holding slices) have their whole global frame compared with the reference after every statement; closure-plumbing sessions (arrays/strings captured by sibling closures and by closures a generator yields, routed through other functions and called again after other calls, deep recursion and recycled iterator contexts) are compared the same way; the value-package histories hold nil, float and int elements side by side, strings long enough to reach 32..200 bytes extended more than once, and include == / != between live values; the sessions also extend one long concatenation result twice and append one-element literals with a computed element to slices and call results, and hand literals built by the VM (never stored in a variable: written in the call, returned by a call, fetched out of an enclosing literal) to a function that extends its parameter twice and keeps both results.",
    note="ARR (array literal building) is reached only through programs; shadow copies use the harness value type.",
    design="6/C10"),
  "C08": dict(
    technique="runtime monitoring: twin-run monitor (failure session vs a session that re-creates the completed globals by literal assignments) + residue assertion on hooked state after each failure + differential reference-model monitor",
-   text="Sessions prefix·F·suffix with F a parse error or one of the seven runtime error classes (index errors from one- and two-bound accesses) raised at top level, at call depth up to 200, in loop bodies, in (nested) generators after the k-th yield, in closures, or several in a row are compared statement-by-statement with a twin that never saw F but holds the same globals, and with the reference; the hooked machine state must be clean after every failure and unchanged by a parse error; handed to the REPL/file loop's processInput as multi-statement inputs (greedy grouping that provably parses into the same statements) the failing part and the suffix must print and leave exactly what they do one statement per input.",
+   text="Sessions prefix·F·suffix with F a parse error or one of the seven runtime error classes (index errors from one- and two-bound accesses) raised at top level, at call depth up to 200, in loop bodies, in (nested) generators after the k-th yield, in closures, or several in a row are compared statement-by-statement with a twin that never saw F but holds the same globals, and with the reference (a suffix statement that fails must also list the same calls in its error report as in the twin: one of the called functions is bound inside the failing statement); the hooked machine state must be clean after every failure and unchanged by a parse error; handed to the REPL/file loop's processInput as multi-statement inputs (greedy grouping that provably parses into the same statements) the failing part and the suffix must print and leave exactly what they do one statement per input.",
    note="Completed globals are literal-printable by construction; helper definitions inside F are replayed verbatim in the twin.",
    design="6/C08"),
  "C12": dict(
    technique="runtime monitoring: metamorphic placement monitor (one expression in ~35 code-generation contexts, rewrite equivalences, enumerated non-boolean conditions) with the reference semantics as tie-breaker",
-   text="Typed expressions are embedded in used/discarded/tail/return/argument/array/if/while/for/yield/top-level-return/operand-depth placements, each run on a fresh interpreter and compared (value where observable, output, error class) with the reference answer for the plain expression; x=x+1 vs x=1+x vs t=x;x=t+1, e op e vs t=e;t op t, negated if/while are cross-compared in both modes; every non-boolean condition in 24 statement placements must be a type error that runs no body. Further expressions: two operands that are the same tree with an effectful call, operands that look alike on paper (2 / 2.0 / \"2\", a variable and the string spelling its name), a negated comparison with a NaN operand; for strings and arrays also placements beside non-identity literals (\"<\" + e, [71] + e + [72]) whose expected value is computed from the plain value; rewrites include the non-commuting mirror forms (x = 1 - x vs t = x; x = 1 - t).",
+   text="Typed expressions are embedded in used/discarded/tail/return/argument/array/if/while/for/yield/top-level-return/operand-depth placements, each run on a fresh interpreter and compared (value where observable, output, error class) with the reference answer for the plain expression; x=x+1 vs x=1+x vs t=x;x=t+1, e op e vs t=e;t op t, negated if/while are cross-compared in both modes; every non-boolean condition in 24 statement placements must be a type error that runs no body; comparisons of 14 operands with a boolean literal written as the whole condition of if / if-else / while must pick the branch the reference picks, without error. One placement runs the expression inside a function whose parameters carry its variables, right after an assignment to its leftmost variable that sits in an if skipped at run time. Further expressions: two operands that are the same tree with an effectful call, operands that look alike on paper (2 / 2.0 / \"2\", a variable and the string spelling its name), a negated comparison with a NaN operand; for strings and arrays also placements beside non-identity literals (\"<\" + e, [71] + e + [72]) whose expected value is computed from the plain value; rewrites include the non-commuting mirror forms (x = 1 - x vs t = x; x = 1 - t).",
    note="Expressions the reference finds ambiguous or nil-valued are dropped.",
    design="6/C12"),
  "C15": dict(
@@ -97,7 +97,7 @@ CLAIMED = {
    design="6/C17"),
  "C19": dict(
    technique="runtime monitoring: trace-specification checker over the recorded error report (parsed) against the reference semantics' call/coroutine trace and the step hook's last dispatched instruction",
-   text="Failing statements of every error class at call depth up to 200, in loops, (nested) generators, pipeline stage functions, closures, function-valued parameters and built-ins, calls whose parameters and operands hold awkward values (arrays of 8..12 elements starting with empty strings, format verbs, renderings around the 20 character abbreviation limit; also as the variable of a failing in-place increment or decrement, local or global), callees named through captured variables, failures inside recycled iterator contexts, calls inside while conditions failing at the loop-back test, multi-byte values, one session in twenty with a compiler-refused statement in the middle, each session ending in two more failing statements; the printed report is parsed and checked: header class, marked instruction equals the hook's last dispatched instruction and belongs to the failing operation's opcode family, every listed line shows the word that is at that address and its independent disassembly, listed operands are an ordered subset of the operands the operation saw, one context block per active coroutine with call-site names, argument counts and current argument values innermost first; never 'giving up', never a panic.",
+   text="Failing statements of every error class at call depth up to 200, in loops, (nested) generators, pipeline stage functions, closures, function-valued parameters and built-ins, calls whose parameters and operands hold awkward values (arrays of 8..12 elements starting with empty strings, format verbs, renderings around the 20 character abbreviation limit; also as the variable of a failing in-place increment or decrement, local or global), callees named through captured variables, failures inside recycled iterator contexts, calls inside while conditions failing at the loop-back test, multi-byte values, absent operands under every binary operator (plain and temp-register forms), one session in twenty with a compiler-refused statement in the middle (it starts with calls whose call sites are recorded before the refusal), each session ending in two more failing statements; the printed report is parsed and checked: header class, marked instruction equals the hook's last dispatched instruction and belongs to the failing operation's opcode family, every listed line shows the word that is at that address and its independent disassembly, listed operands are an ordered subset of the operands the operation saw, one context block per active coroutine with call-site names, argument counts and current argument values innermost first; never 'giving up', never a panic.",
    note="Operand-list completeness is not demanded; values are compared in the report's own 20-character abbreviation; a nil operand may be reported by the MOV that loads it.",
    design="6/C19"),
 }
